@@ -12,7 +12,7 @@ variable {K : Type}
 /-- the number format of a C13 codec, as the writer / reader of the adjustment XML use it -/
 def numOf (C : Gama.Export.Codec K) : Num K := ⟨C.fmt, C.rd⟩
 
-theorem numOf_law {C : Gama.Export.Codec K} {q : K → K} (P : C.Printer q) (x : K) :
+theorem numOf_law {C : Gama.Export.Codec K} {q qd : K → K} (P : C.Printer q qd) (x : K) :
     (numOf C).rd ((numOf C).fmt x) = some (q x) := P.rd_fmt x
 
 /-- arithmetic on the counting numbers of `decCodec` (units of 10⁻⁴; truncated), only to run the examples -/
